@@ -98,6 +98,43 @@ def verify_reader(reg, fn, contract, extra_args=(), label=None, clauses=("match"
         explore_unit(res, run_m)
         results.append(res)
 
+    # ---- conformance beyond the canonical form: the protocol guide says of BOOLEAN "when reading, any non-zero value is
+    # considered true" - every byte is a conforming encoding, of the value (byte != 0)
+    if d == ("bool",) and "match" in clauses:
+        unit_c = f"L1/reader/{label}/conf-any-nonzero-byte-is-true"
+        res_c = Result(unit_c)
+
+        def run_c(ctx, res=res_c):
+            from kvc.core import Byte
+            bt = ctx.int_const("byte", 0, 255)
+            tail = ctx.bytes_const("tail")
+            src = Source(ctx, [Byte(bt), Raw(tail)])
+
+            def replay(ob):
+                import io
+                m = small_model(ob)
+                bv = m.eval(bt, model_completion=True).as_long()
+                bio = io.BytesIO(bytes([bv]) + b"\x55")
+                k, r_ = native_outcome(lambda: fn(bio, *extra_args))
+                ok = k == "return" and r_ is (bv != 0) and bio.tell() == 1
+                return {"confirmed": not ok, "function": f"{fn.__module__}:{fn.__qualname__}", "input_bytes": bytes([bv]).hex(),
+                        "expected": {"value": bv != 0, "position": 1}, "observed": {"outcome": k, "value": repr(r_), "position": bio.tell()}}
+            res.replayer = replay
+            it = make_interp(ctx, reg, exclude=fn)
+            out = run_body(it, fn, [src, *extra_args])
+            if out.kind != "return":
+                path_obligation(res, ctx, f"{unit_c}/returns", z3.BoolVal(False), expected="a bool", got=repr(out))
+            else:
+                path_obligation(res, ctx, f"{unit_c}/value", tobool(it.truth_term(out.value)) == (bt != 0),
+                                expected="byte != 0", got=repr(out.value))
+                path_obligation(res, ctx, f"{unit_c}/exact-consumption", tobool(equalise(ctx, src.rest(), [Raw(tail)])),
+                                expected="rest == tail", got=repr(src.rest()))
+            collect(res, ctx)
+        explore_unit(res_c, run_c)
+        for ob in res_c.obligations:
+            ob.info.setdefault("replayer", getattr(res_c, "replayer", None))
+        results.append(res_c)
+
     # ---- N: null form for a non-nullable reader
     sib = CS.nullable_sibling(d)
     if sib is not None and d[0] not in ("ent", "ts") and "null" in clauses:
@@ -377,6 +414,8 @@ def verify_tagged_field(reg):
     parametric in the payload writer's CONTRACT, but the body could special-case particular writer functions, so each
     one in use is an instantiation of its own)"""
     import kio.serial.writers as W
+    from contracts import entity as CE
+    reg = CS.Registry(extra=CE.extra_lookup)      # the nested-entity closures among the writers need their class contracts
     fn = W.write_tagged_field
     contract = reg.lookup(fn)
     results = []
